@@ -5,6 +5,7 @@ import (
 	"sort"
 
 	codectypes "github.com/cosmos/cosmos-sdk/codec/types"
+	sdk "github.com/cosmos/cosmos-sdk/types"
 
 	"github.com/teleport-network/teleport/x/xibc/core/host"
 	"github.com/teleport-network/teleport/x/xibc/exported"
@@ -171,7 +172,30 @@ func (gs GenesisState) Validate() error {
 
 	}
 
+	for i, relayer := range gs.Relayers {
+		if err := relayer.Validate(); err != nil {
+			return fmt.Errorf("invalid relayer %s index %d: %w", relayer.Address, i, err)
+		}
+	}
+
 	return host.ClientIdentifierValidator(gs.NativeChainName)
+}
+
+// Validate checks a genesis relayer the way RegisterRelayerProposal.ValidateBasic checks a registration:
+// InitGenesis stores the entry under its address and the address lookup indexes Addresses by the position in Chains
+func (ir IdentifiedRelayer) Validate() error {
+	if _, err := sdk.AccAddressFromBech32(ir.Address); err != nil {
+		return fmt.Errorf("relayer address could not be parsed: %w", err)
+	}
+	if len(ir.Addresses) == 0 || len(ir.Addresses) != len(ir.Chains) {
+		return fmt.Errorf("relayer needs one address per chain, got %d chains and %d addresses", len(ir.Chains), len(ir.Addresses))
+	}
+	for _, chain := range ir.Chains {
+		if err := host.ClientIdentifierValidator(chain); err != nil {
+			return err
+		}
+	}
+	return nil
 }
 
 // NewGenesisMetadata is a constructor for GenesisMetadata
